@@ -8,6 +8,9 @@ def run(tier, seed):
     chk = Check("C12", tier, seed, "other")
     for k in c12_lexer.KERNELS:
         chk.add_kernel(run_kernel(k, tier))
+    from .. import frame
+    ok, sites, failing = frame.rule_dispatch()
+    chk.add_rule("C12.S.dispatch_complete", ok, sites, failing)
     try:
         from . import _parser_enum
         _parser_enum.add(chk, tier, seed)
